@@ -464,4 +464,103 @@ theorem C14_append_roundtrip {F} (cd : Codec) (hal : AppendLaws cd) (o : FOps F)
     subst hB
     exact this
 
+/-! ### non-vacuity -/
+
+theorem stubTable_length_le (item cs fuel len : Nat) : (stubTable item cs fuel len).length ≤ fuel := by
+  induction fuel generalizing len with
+  | zero => simp [stubTable]
+  | succ f ih =>
+    unfold stubTable
+    split
+    · simp
+    · split
+      · simp only [List.length_cons]; have := ih (len - cs * item); omega
+      · simp
+
+theorem flatMap_len16 (tb : List (Nat × Nat)) :
+    (tb.flatMap fun e => leBytes 8 e.1 ++ leBytes 8 e.2).length = 16 * tb.length := by
+  induction tb with
+  | nil => rfl
+  | cons e es ih =>
+    simp only [List.flatMap_cons, List.length_append, leBytes_length, ih, List.length_cons]; omega
+
+/-- the size of what the double's appender leaves is bounded by the stream it was opened on and what is appended,
+    whatever follows that stream -/
+theorem stub_append_length (cs : Nat) (p : Bytes) (start : Nat) (existing : Bytes) (more : List (List Rec)) :
+    ((stubCodec cs).append p start existing more).length ≤
+      24 + 17 * ((leNat (existing.take 8) - start - 8) + more.flatten.flatten.length + 1) := by
+  show (leBytes 8 _ ++ xorFrom _ 0 _ ++ leBytes 4 0 ++ leBytes 4 _ ++ _).length ≤ _
+  generalize hn : leNat (existing.take 8) - start - 8 = nb
+  simp only [List.length_append, leBytes_length, xorFrom_length, flatMap_len16]
+  have h1 : ((existing.drop 8).take nb).length ≤ nb := by simp [List.length_take]; omega
+  have h2 := stubTable_length_le (stubItem p) (stubChunkSize p)
+    (((existing.drop 8).take nb).length + more.flatten.flatten.length + 1)
+    (((existing.drop 8).take nb).length + more.flatten.flatten.length)
+  omega
+
+theorem laws2 : Laws intOps2 good2 :=
+  { good_render := by intro a x; simp only [intOps2, clamp, good2]; omega,
+    good_lowest := by simp only [intOps2, good2]; omega,
+    good_highest := by simp only [intOps2, good2]; omega,
+    lt_iff := by intro a b; simp [intOps2],
+    trans := by intro a b c _ _ _ h1 h2; simp [intOps2] at *; omega,
+    negtrans := by intro a b c _ _ _ h1 h2; simp [intOps2] at *; omega,
+    mono := by intro a x y hxy; simp only [intOps2, clamp, gt_iff_lt, decide_eq_false_iff_not]; omega,
+    tie_eq := by intro a x y h1 h2; simp only [intOps2, clamp, gt_iff_lt, decide_eq_false_iff_not] at *; omega }
+
+theorem bitsOK2 : BitsOK intOps2 := by
+  constructor
+  intro x
+  simp only [intOps2]
+  have h1 := Int.emod_lt_of_pos (x + 2 ^ 63) (show (0 : Int) < ((2 ^ 64 : Nat) : Int) by decide)
+  have h2 := Int.emod_nonneg (x + 2 ^ 63) (show ((2 ^ 64 : Nat) : Int) ≠ 0 by decide)
+  omega
+
+theorem bitsRT2 : BitsRoundTrip intOps2 good2 := by
+  intro x hx
+  simp only [intOps2, good2] at *
+  have : (x + 2 ^ 63) % ((2 ^ 64 : Nat) : Int) = x + 2 ^ 63 := Int.emod_eq_of_lt (by omega) (by omega)
+  rw [this]
+  omega
+
+/-- the hypotheses of `C14_append_roundtrip` are met by a concrete history on the backend double (chunk size 2): three records
+    written compressed in chunks of 2, 0 and 1, then one more record appended -/
+example : ∃ file0 file1 es, sessionC (stubCodec 2) intOps2 exHdr (sessionOps exHdr exChunks []) = .ok file0 ∧
+    appendSessionC (stubCodec 2) intOps2 file0 ([[List.replicate 20 9]].map (mkChunk exHdr)) = .ok file1 ∧
+    ∃ r, readFileC (stubCodec 2) file1 = .ok r ∧ r.records = (exChunks ++ [[List.replicate 20 9]]).flatten ∧ (es : Nat) = es := by
+  have okA : SessionOKC (stubCodec 2) intOps2 exHdr exChunks [] :=
+    { wf := exHdr_wf
+      bits := bitsOK2
+      compat := ⟨(2, 0), rfl⟩
+      lz := by decide +kernel
+      nvlrs := by decide
+      hsize := by decide
+      offset := by decide +kernel
+      cap := by decide
+      evWF := by intro v hv; cases hv
+      evVersion := fun _ => rfl
+      evCount := by decide
+      fileSize := by decide +kernel }
+  have img : ImageOK exHdr (exChunks ++ [[List.replicate 20 9]]) :=
+    { fmt := by decide +kernel
+      recLen := by decide +kernel
+      pos := by decide
+      recs := by decide }
+  obtain ⟨file0, file1, es, h0, h1, hr⟩ := C14_append_roundtrip (stubCodec 2) (stub_appendLaws 2 (by decide)) intOps2 good2 laws2
+    (by simp only [intOps2, good2]; omega) bitsRT2 exHdr exChunks [[List.replicate 20 9]] [] okA (by decide) img
+    (by intro v hv; cases hv) (by intro v hv; cases hv) (by decide +kernel)
+    (by
+      intro T
+      have hb := stub_append_length 2 (lzOf (stubCodec 2) exHdr) (headerLenOf (compHdr (stubCodec 2) exHdr))
+        (streamOf (stubCodec 2) exHdr exChunks ++ T) (nonEmpty [[List.replicate 20 9]])
+      have h8 : (streamOf (stubCodec 2) exHdr exChunks ++ T).take 8 = (streamOf (stubCodec 2) exHdr exChunks).take 8 := by
+        apply List.take_append_of_le_length
+        decide +kernel
+      rw [h8] at hb
+      have hc : 24 + 17 * ((leNat ((streamOf (stubCodec 2) exHdr exChunks).take 8) - headerLenOf (compHdr (stubCodec 2) exHdr) - 8) +
+          (nonEmpty [[List.replicate 20 9]]).flatten.flatten.length + 1) < 2 ^ 63 := by decide +kernel
+      have ho : headerLenOf (compHdr (stubCodec 2) exHdr) < 2 ^ 63 := by decide +kernel
+      omega)
+  exact ⟨file0, file1, es, h0, h1, _, hr, rfl, rfl⟩
+
 end LasModel.Props.C14Append
